@@ -51,8 +51,8 @@ func runC06(c *Ctx) {
 
 func c06Lanes(c *Ctx, W int) {
 	r := c.R
-	inFn := c.helper("pkg/curl", "Curl.in")
-	outFn := c.helper("pkg/curl", "Curl.out")
+	inFn := c06LaneFn(c, "Curl.in", "Curl.Absorb")
+	outFn := c06LaneFn(c, "Curl.out", "Curl.Squeeze")
 	if inFn == nil || outFn == nil {
 		r.Undec("C06.lane-noninterference.anchor", "", "Curl.in / Curl.out not found")
 		return
@@ -233,10 +233,10 @@ func c06Sponge(c *Ctx) {
 	r := c.R
 	curlMethod := c.helper("pkg/curl", "Curl.transform")
 	inName, outName := "<missing>", "<missing>"
-	if f := c.helper("pkg/curl", "Curl.in"); f != nil {
+	if f := c06LaneFn(c, "Curl.in", "Curl.Absorb"); f != nil {
 		inName = f.String()
 	}
-	if f := c.helper("pkg/curl", "Curl.out"); f != nil {
+	if f := c06LaneFn(c, "Curl.out", "Curl.Squeeze"); f != nil {
 		outName = f.String()
 	}
 	for _, name := range []string{"Absorb", "Squeeze"} {
@@ -650,7 +650,21 @@ func laneCall(t *ana.Term, name, coll string) bool {
 	}
 	const k = "bin<+>(ind<+1>(-1), 1)"
 	kinds := ""
-	for _, a := range t.Args[1:] {
+	// the state: the receiver, or — the lane routine as a plain function — the addresses of the receiver's two planes,
+	// l before h (laneArgs binds the routine's first array parameter to l, its second to h)
+	state := ""
+	for i, a := range t.Args {
+		switch {
+		case i == 0 && (a.String() == "p0" || a.Op == "obj" && len(a.Args) > 0 && a.Args[0].String() == "p0"):
+			state += "R"
+			continue
+		case matches("faddr<#0>(_)", a) && len(a.Args) == 1 && stripObj(a.Args[0]).String() == "p0":
+			state += "A"
+			continue
+		case matches("faddr<#1>(_)", a) && len(a.Args) == 1 && stripObj(a.Args[0]).String() == "p0":
+			state += "B"
+			continue
+		}
 		switch {
 		case matches("slice(load(iaddr("+coll+", "+k+")), ind<+243>(0), none)", a):
 			kinds += "S"
@@ -665,11 +679,68 @@ func laneCall(t *ana.Term, name, coll string) bool {
 			return false
 		}
 	}
+	if state != "R" && state != "AB" {
+		return false
+	}
 	switch kinds {
 	case "SK", "KS", "LOK", "OLK", "OKL":
 		return true
 	}
 	return false
+}
+
+// c06LaneFn resolves a lane routine: by name / signature (c.helper), or — turned into a plain function that is handed
+// the two planes — as the one repository function called by the API method `caller` that takes a trit slice and two
+// pointers to the state array type.
+func c06LaneFn(c *Ctx, name, caller string) *ssa.Function {
+	if f := c.helper("pkg/curl", name); f != nil {
+		return f
+	}
+	cf := c.P.Func("pkg/curl", caller)
+	if cf == nil {
+		return nil
+	}
+	var found []*ssa.Function
+	seen := map[*ssa.Function]bool{}
+	for _, ci := range ana.Calls(cf) {
+		h := ana.StaticRepoCallee(ci.Common())
+		if h == nil || seen[h] || h.Blocks == nil || h.Signature.Recv() != nil {
+			continue
+		}
+		seen[h] = true
+		planes, trits := 0, 0
+		for _, p := range h.Params {
+			if isPlanePtr(p.Type()) {
+				planes++
+			}
+			if sl, ok := p.Type().Underlying().(*types.Slice); ok {
+				if bt, ok := sl.Elem().Underlying().(*types.Basic); ok && bt.Kind() == types.Int8 {
+					trits++
+				}
+			}
+		}
+		if planes == 2 && trits == 1 {
+			found = append(found, h)
+		}
+	}
+	if len(found) == 1 {
+		return found[0]
+	}
+	return nil
+}
+
+// isPlanePtr: *[729]uint (a pointer to one plane of the batched state).
+func isPlanePtr(t types.Type) bool {
+	p, ok := t.Underlying().(*types.Pointer)
+	if !ok {
+		return false
+	}
+	a, ok := p.Elem().Underlying().(*types.Array)
+	if !ok || a.Len() != 729 {
+		return false
+	}
+	bt, ok := a.Elem().Underlying().(*types.Basic)
+	return ok && bt.Kind() == types.Uint
 }
 
 // laneArgs builds the arguments of the lane routines in / out from their signature: the receiver, the trit slice,
@@ -701,8 +772,9 @@ const laneBit = "bin<<<>(1, alt(" + laneK + ", conv<uint>(" + laneK + ")))"
 
 func laneArgs(fn *ssa.Function, W int, recv bitdom.Val, trits bitdom.Val, idx int, bit bool) []bitdom.Val {
 	var ints []int
+	method := fn.Signature.Recv() != nil
 	for i, p := range fn.Params {
-		if i == 0 {
+		if i == 0 && method {
 			continue
 		}
 		if bt, ok := p.Type().Underlying().(*types.Basic); ok && bt.Info()&types.IsInteger != 0 {
@@ -710,10 +782,17 @@ func laneArgs(fn *ssa.Function, W int, recv bitdom.Val, trits bitdom.Val, idx in
 		}
 	}
 	args := make([]bitdom.Val, len(fn.Params))
+	plane := 0
 	for i, p := range fn.Params {
 		switch {
-		case i == 0:
+		case i == 0 && method:
 			args[i] = recv
+		case isPlanePtr(p.Type()):
+			// the routine as a plain function: its first plane parameter is l, its second h (C06's call rules require
+			// every call to pass &c.l, &c.h in that order)
+			st := recv.(*bitdom.Ptr).Cell.V.(*bitdom.Struct)
+			args[i] = &bitdom.Ptr{Cell: &bitdom.Cell{V: st.Fields[plane%2]}}
+			plane++
 		case len(ints) > 0 && i == ints[len(ints)-1]:
 			bt := p.Type().Underlying().(*types.Basic)
 			lv := uint64(idx)
